@@ -89,5 +89,6 @@ def showOutcome : Apply.Outcome → String
   | .rollbackFailed _ => "rollbackfailed"
   | .backupFailed => "backupfailed"
   | .destExists => "destexists"
+  | .sharedDest => "shareddest"
 
 end Wire
